@@ -74,13 +74,10 @@ theorem partsOf_sub (t : Tree) (i p : Nat) (h : p ∈ t.partsOf i) : ∃ lf ∈ 
   · simp at h1
   · exact h1
 
-/-- **C01, any weights**: every particle's result is the sum of the weights of all the other particles -/
-theorem C01_values_weighted (D H bs : Nat) (mode : Bool) (leafIdx : List Nat) (upper : Nat)
-    (hbs : 0 < bs) (hne : leafIdx ≠ []) (hH : 1 ≤ H) (hlt : ∀ i ∈ leafIdx, i < 2^(D*(H-1))) (hu : upper ≤ 2)
-    (w : Nat → Nat) (p : Nat) (hp : p < leafIdx.length) :
-    (applyCalls w (H-1) (Tree.build D H bs mode leafIdx).partsOf (Tree.build D H bs mode leafIdx).partsOf {}
-      (executeSeq (Tree.build D H bs mode leafIdx) false 63 upper)).r p =
-      sumOver (List.range leafIdx.length) (fun q => if p = q then 0 else w q) := by
+/-- the particle ids mentioned by the calls of an execution, and by the particle lookup, are `< N` -/
+theorem executeSeq_ids (D H bs : Nat) (mode : Bool) (leafIdx : List Nat) (periodic : Bool) (upper : Nat) (hbs : 0 < bs) :
+    (∀ i, ∀ x ∈ (Tree.build D H bs mode leafIdx).partsOf i, x < leafIdx.length) ∧
+    (∀ c ∈ executeSeq (Tree.build D H bs mode leafIdx) periodic 63 upper, callOk (· < leafIdx.length) c) := by
   have hperm := C13_indices_perm D H bs mode leafIdx hbs
   have hids : ∀ lf ∈ (Tree.build D H bs mode leafIdx).pgroups.flatten, ∀ x ∈ lf.parts, x < leafIdx.length := by
     intro lf hl x hx
@@ -91,7 +88,7 @@ theorem C01_values_weighted (D H bs : Nat) (mode : Bool) (leafIdx : List Nat) (u
     intro i x hx
     obtain ⟨lf, hl, hm⟩ := partsOf_sub _ i x hx
     exact hids lf hl x hm
-  have hcs : ∀ c ∈ executeSeq (Tree.build D H bs mode leafIdx) false 63 upper, callOk (· < leafIdx.length) c := by
+  have hcs : ∀ c ∈ executeSeq (Tree.build D H bs mode leafIdx) periodic 63 upper, callOk (· < leafIdx.length) c := by
     intro c hc
     cases c with
     | p2m leaf parts =>
@@ -129,7 +126,7 @@ theorem C01_values_weighted (D H bs : Nat) (mode : Bool) (leafIdx : List Nat) (u
             · simp at hc
           · simp at hc
         · split at hc
-          · have := p2pAll_form _ false _ (fun _ => []) _ _ hc
+          · have := p2pAll_form _ periodic _ (fun _ => []) _ _ hc
             exact absurd this (by simp [isResultCall])
           · simp at hc
       simp only [p2mAll] at this
@@ -175,7 +172,7 @@ theorem C01_values_weighted (D H bs : Nat) (mode : Bool) (leafIdx : List Nat) (u
           · exact hc
           · simp at hc
         · split at hc
-          · have := p2pAll_form _ false _ (fun i => if i = leaf then parts else []) _ _ hc
+          · have := p2pAll_form _ periodic _ (fun i => if i = leaf then parts else []) _ _ hc
             simp only [isResultCall] at this
             -- a P2P-phase call is never an L2P call
             exfalso
@@ -203,6 +200,16 @@ theorem C01_values_weighted (D H bs : Nat) (mode : Bool) (leafIdx : List Nat) (u
     | p2p _ _ _ => trivial
     | p2pTsm _ _ _ => trivial
     | p2pInner _ => trivial
+  exact ⟨hpo, hcs⟩
+
+/-- **C01, any weights**: every particle's result is the sum of the weights of all the other particles -/
+theorem C01_values_weighted (D H bs : Nat) (mode : Bool) (leafIdx : List Nat) (upper : Nat)
+    (hbs : 0 < bs) (hne : leafIdx ≠ []) (hH : 1 ≤ H) (hlt : ∀ i ∈ leafIdx, i < 2^(D*(H-1))) (hu : upper ≤ 2)
+    (w : Nat → Nat) (p : Nat) (hp : p < leafIdx.length) :
+    (applyCalls w (H-1) (Tree.build D H bs mode leafIdx).partsOf (Tree.build D H bs mode leafIdx).partsOf {}
+      (executeSeq (Tree.build D H bs mode leafIdx) false 63 upper)).r p =
+      sumOver (List.range leafIdx.length) (fun q => if p = q then 0 else w q) := by
+  obtain ⟨hpo, hcs⟩ := executeSeq_ids D H bs mode leafIdx false upper hbs
   rw [result_restrict (H-1) _ _ _ w leafIdx.length hpo hpo hcs p, result_decomp]
   apply sumOver_congr
   intro q hq
